@@ -44,7 +44,7 @@ def shards(tier, seed):
 
 def universe(seed, uid):
     rng = core.rng_for(seed, PROP, 'uni%d' % uid)
-    o = gen.Opts(max_types=4, nested_arrays=0.0, styles=('wrapped', 'wrapped', 'bare'), multi_return=False, methods=(1, 3), services=(1, 1),
+    o = gen.Opts(sub_names=True, max_types=4, nested_arrays=0.0, styles=('wrapped', 'wrapped', 'bare'), multi_return=False, methods=(1, 3), services=(1, 1),
                  attrs=False)
     return gen.rand_universe(rng, o, uid=uid)
 
@@ -214,7 +214,7 @@ def xml_mutations(R, ir, kind, validator, rng, tier, repro):
 
 def universe_h(seed, uid):
     rng = core.rng_for(seed, PROP, 'unih%d' % uid)
-    o = gen.Opts(max_types=4, nested_arrays=0.0, styles=('wrapped',), multi_return=False, methods=(2, 3), services=(1, 1), attrs=False, headers=True)
+    o = gen.Opts(sub_names=True, max_types=4, nested_arrays=0.0, styles=('wrapped',), multi_return=False, methods=(2, 3), services=(1, 1), attrs=False, headers=True)
     ir = gen.rand_universe(rng, o, uid=uid)
     hc = [t['name'] for t in ir['types'] if not t.get('has_xmldata') and t['fields']]
     for md in ir['services'][0]['methods']:
